@@ -23,7 +23,7 @@ type group
 type folder
   relations
     define parent: [folder]
-    define owner: [user]
+    define owner: [user, user with cy]
     define viewer: [user, group#member] or owner or viewer from parent
 
 type doc
@@ -36,8 +36,12 @@ type doc
     define both: editor and viewer
     define can_view: viewer but not banned
 
-condition cx(x: int, ip: ipaddress, l: list<string>, m: map<int>) {
+condition cx(x: int) {
   x < 100
+}
+
+condition cy(ip: ipaddress, l: list<string>, m: map<int>) {
+  ip.in_cidr("10.0.0.0/8") && size(l) > 0 && size(m) > 0
 }
 `
 
